@@ -107,6 +107,27 @@ var c13SplitFaults = [][2]string{
 	{"@if(", "~)x@end"}, // the offending token is the @elseif that follows an @else
 }
 
+// c13HeadFaults: constructs that span a line break whose offending token (the function name) stands before the break.
+var c13HeadFaults = [][2]string{
+	{"{{ 1.nope(1,", " 2) }}"},
+	{"{{ \"s\".at(\"x\",", " 1) }}"},
+	{"{{ [1].slice(\"a\",", " 2) }}"},
+}
+
+// HarnessC13Head: the reported line of a failing call is the line of the function name, wherever its argument
+// list ends.
+func HarnessC13Head() {
+	src := c13Token(vChoice("kind", c13Kinds), "t")
+	f := c13HeadFaults[vChoice("fault", len(c13HeadFaults))]
+	src += f[0]
+	want := 1 + countNewlines(src)
+	src += string([]byte{symBreak("inner")}) + f[1] + string([]byte{symBreak("after")}) + "tail"
+	_, err, _ := renderChecked(src, nil)
+	vCover("returned")
+	vAssert(err != nil, "faulty-construct-is-reported")
+	vAssert(err.Line() == want, "reported-line-is-the-line-of-the-function-name")
+}
+
 // HarnessC13Split: the offending token of the faulty construct follows a symbolic line break inside the construct;
 // the reported line is the line on which that token ends.
 func HarnessC13Split() {
